@@ -1,6 +1,7 @@
 package main
 
 import (
+	"bytes"
 	"os"
 	"path/filepath"
 	"strconv"
@@ -162,6 +163,8 @@ func flatBest(d *bestDoc) (J, J) {
 
 // flattenTwice parses once and projects the SAME parsed value twice: accessors must not disturb the fields
 // or each other (a second AbsFiles() call must answer like the first).
+var lastRemarshal J
+
 func flattenTwice(kind, text string) (flat, acc, flat2, acc2 J, ok bool) {
 	defer func() {
 		if r := recover(); r != nil {
@@ -169,25 +172,26 @@ func flattenTwice(kind, text string) (flat, acc, flat2, acc2 J, ok bool) {
 		}
 	}()
 	var project func() (J, J)
+	var typed interface{}
 	switch kind {
 	case "best":
 		d := &bestDoc{}
 		if err := control.Unmarshal(d, strings.NewReader(text)); err != nil {
 			return J{}, J{}, J{}, J{}, false
 		}
-		project = func() (J, J) { return flatBest(d) }
+		project, typed = func() (J, J) { return flatBest(d) }, d
 	case "dsc":
 		d, err := control.ParseDsc(bufioReader(text), "/srv/pool/x.dsc")
 		if err != nil {
 			return J{}, J{}, J{}, J{}, false
 		}
-		project = func() (J, J) { return flatDSC(d) }
+		project, typed = func() (J, J) { return flatDSC(d) }, d
 	case "changes":
 		c, err := control.ParseChanges(bufioReader(text), "/srv/pool/x.changes")
 		if err != nil {
 			return J{}, J{}, J{}, J{}, false
 		}
-		project = func() (J, J) { return flatChanges(c) }
+		project, typed = func() (J, J) { return flatChanges(c) }, c
 	case "srcpara", "binpara":
 		doc := text
 		if kind == "binpara" {
@@ -198,27 +202,34 @@ func flattenTwice(kind, text string) (flat, acc, flat2, acc2 J, ok bool) {
 			return J{}, J{}, J{}, J{}, false
 		}
 		if kind == "srcpara" {
-			project = func() (J, J) { return flatSrcPara(&c.Source) }
+			project, typed = func() (J, J) { return flatSrcPara(&c.Source) }, &c.Source
 		} else {
-			project = func() (J, J) { return flatBinPara(&c.Binaries[0]) }
+			project, typed = func() (J, J) { return flatBinPara(&c.Binaries[0]) }, &c.Binaries[0]
 		}
 	case "packages":
 		l, err := control.ParseBinaryIndex(bufioReader(text))
 		if err != nil || len(l) != 1 {
 			return J{}, J{}, J{}, J{}, false
 		}
-		project = func() (J, J) { return flatPackages(&l[0]) }
+		project, typed = func() (J, J) { return flatPackages(&l[0]) }, &l[0]
 	case "sources":
 		l, err := control.ParseSourceIndex(bufioReader(text))
 		if err != nil || len(l) != 1 {
 			return J{}, J{}, J{}, J{}, false
 		}
-		project = func() (J, J) { return flatSources(&l[0]) }
+		project, typed = func() (J, J) { return flatSources(&l[0]) }, &l[0]
 	default:
 		die("docs: unknown kind %s", kind)
 	}
 	flat, acc = project()
 	flat2, acc2 = project()
+	// the typed value marshalled, and that text parsed by the same parser: the same document again
+	lastRemarshal = J{"ok": false, "flat": J{}, "marshal_ok": false}
+	var buf bytes.Buffer
+	if err := control.Marshal(&buf, typed); err == nil {
+		f3, _, ok3 := flatten(kind, buf.String())
+		lastRemarshal = J{"ok": ok3, "flat": f3, "marshal_ok": true}
+	}
 	if kind == "dsc" || kind == "changes" {
 		v := absFilesViaFile(kind, text)
 		acc["AbsFilesViaFile"], acc2["AbsFilesViaFile"] = v, v
@@ -389,8 +400,9 @@ func execDocs(vec J, out *Writer) {
 			out.Put(J{"ev": "doc", "in": vec, "parsed": ok, "flat": flat, "acc": acc, "flat2": flat2, "acc2": acc2})
 			return
 		}
+		lastRemarshal = J{"ok": false, "flat": J{}, "marshal_ok": false}
 		flat, acc, flat2, acc2, ok := flattenTwice(vec["kind"].(string), S(vec["bytes"]))
-		out.Put(J{"ev": "doc", "in": vec, "parsed": ok, "flat": flat, "acc": acc, "flat2": flat2, "acc2": acc2})
+		out.Put(J{"ev": "doc", "in": vec, "parsed": ok, "flat": flat, "acc": acc, "flat2": flat2, "acc2": acc2, "remarshal": lastRemarshal})
 	default:
 		die("docs: unknown vector kind %v", vec["k"])
 	}
